@@ -15,6 +15,7 @@
   Values that are data (signals, noise, amplitudes) are the opaque placeholder `data`.
 -/
 import EmdModel.Config
+import EmdModel.Sift
 
 namespace Options
 open Config
@@ -423,6 +424,20 @@ def emit (legacy : Bool) (r : Route) (v : Variant) (u : User) : Except Err (List
     | .getFunc => if takesFunc v then (kwargsConfig (baseVariant v) u).map partialCall else .error .typeError
   runVariant legacy v kw
 
+/-- `functools.partial(f, **frozen)(x, **call)` binds `{**frozen, **call}`: a keyword given at call time REPLACES the
+    frozen one (whole value — an option dictionary is not merged key by key); frozen keywords the call does not
+    repeat stay -/
+def mergeKw : Assoc → Assoc → Assoc
+  | frozen, .nil => frozen
+  | frozen, .cons k v r => mergeKw (frozen.insert k v) r
+
+/-- route D — both deliveries combined (second layer): `cfg = get_config(inner)` edited with the top-level keywords,
+    `sift_second_layer(IA, sift_func=cfg.get_func(), sift_args={'imf_opts': …, 'envelope_opts': …, 'extrema_opts': …})`,
+    i.e. `partial(inner, **cfg)(IA[:, ii], **sift_args)` -/
+def emitFuncArgs (legacy : Bool) (inner : Variant) (u : User) : Except Err (List StageCall) := do
+  let frozen ← kwargsConfig (baseVariant inner) { top := u.top, imf := none, env := none, ext := none }
+  runVariant legacy (.second inner) (mergeKw frozen (kwargsDirect { top := .nil, imf := u.imf, env := u.env, ext := u.ext }))
+
 /-! ### the options a stage actually works with -/
 
 def eraseKeys (ks : List String) (a : Assoc) : Assoc := ks.foldl (fun acc p => acc.erase p.toList) a
@@ -444,6 +459,91 @@ def effective (c : StageCall) : StageCall :=
   | .gni => ⟨.gni, eraseKeys ["envelope_opts", "extrema_opts"] c.args⟩
   | .ie => ⟨.ie, eraseKeys ["extrema_opts"] c.args⟩
   | .gpe => ⟨.gpe, gpeEffective c.args⟩
+
+/-! ### from the bound arguments of `get_next_imf` to the rule it evaluates (link to `EmdModel.Sift`)
+
+  `get_next_imf` reads its own options as follows (emd/sift.py): `stop_method == 'sd'` → `sd_stop(…, sd=sd_thresh)`;
+  `'rilling'` → `rilling_stop(upper, lower, sd1=rilling_thresh[0], sd2=rilling_thresh[1], tol=rilling_thresh[2])`;
+  `'fixed'` → `fixed_stop(niters, max_iters)`; `env_step_size` scales the mean that is removed; `max_iters`
+  bounds the loop; the energy test runs `if energy_thresh is not None`. -/
+
+/-- the number an option value denotes -/
+def numOf : Tree → Option Rat
+  | .scalar (.num r) => some r
+  | .scalar (.int n) => some (n : Rat)
+  | .scalar (.npnum _ r) => some r
+  | .scalar (.npint _ n) => some (n : Rat)
+  | _ => none
+
+def natOf : Tree → Option Nat
+  | .scalar (.int n) => if 0 ≤ n then some n.toNat else none
+  | .scalar (.npint _ n) => if 0 ≤ n then some n.toNat else none
+  | _ => none
+
+/-- `t[j]` with an integer index (list / tuple / ndarray) -/
+def seqGet (t : Tree) (j : Nat) : Except Err Tree :=
+  match t with
+  | .seq _ xs =>
+    match xs.toList[j]? with
+    | some v => .ok v
+    | none => .error .indexError
+  | _ => .error .typeError
+
+def numAt (t : Tree) (j : Nat) : Except Err Rat := do
+  let v ← seqGet t j
+  match numOf v with
+  | some r => .ok r
+  | none => .error .typeError
+
+/-- the stop rule `get_next_imf` evaluates with the bound arguments `a`: every threshold in its own place -/
+def stopRuleOf (a : Assoc) : Except Err Sift.StopRule :=
+  match arg a "stop_method" with
+  | .scalar (.str m) =>
+    if m = "sd".toList then
+      match numOf (arg a "sd_thresh") with
+      | some t => .ok (.sd t)
+      | none => .error .typeError
+    else if m = "rilling".toList then do
+      let sd1 ← numAt (arg a "rilling_thresh") 0
+      let sd2 ← numAt (arg a "rilling_thresh") 1
+      let tol ← numAt (arg a "rilling_thresh") 2
+      .ok (.rilling sd1 sd2 tol)
+    else if m = "fixed".toList then .ok .fixed
+    else .error .valueError          -- no branch assigns `stop` (UnboundLocalError in the code)
+  | _ => .error .valueError
+
+/-- `energy_thresh`: `None` = no energy test -/
+def energyOf (t : Tree) : Except Err (Option Rat) :=
+  if isNone t then .ok none
+  else match numOf t with
+    | some r => .ok (some r)
+    | none => .error .typeError
+
+/-- the options of the Sift model's `get_next_imf` that the bound arguments `a` stand for -/
+def imfOptsOf (a : Assoc) : Except Err Sift.ImfOpts := do
+  let stop ← stopRuleOf a
+  let step ← match numOf (arg a "env_step_size") with
+    | some r => (.ok r : Except Err Rat)
+    | none => .error .typeError
+  let mi ← match natOf (arg a "max_iters") with
+    | some n => (.ok n : Except Err Nat)
+    | none => .error .typeError
+  let et ← energyOf (arg a "energy_thresh")
+  .ok { stop := stop, step := step, maxIters := mi, energyThresh := et }
+
+/-- numeric record of a rule: `[kind, p1, p2, p3, step, max_iters, has_energy, energy]` with kind 0 = sd (p1 = sd_thresh),
+    1 = rilling (p1, p2, p3 = sd1, sd2, tol as handed to `rilling_stop`), 2 = fixed; `none` where the code raises -/
+def fmtImfOpts : Except Err Sift.ImfOpts → String
+  | .error _ => "none"
+  | .ok o =>
+    let stop : List Rat := match o.stop with
+      | .sd t => [0, t, 0, 0]
+      | .rilling a b t => [1, a, b, t]
+      | .fixed => [2, 0, 0, 0]
+    let et : List Rat := match o.energyThresh with
+      | none => [0, 0]
+      | some r => [1, r]
+    Protocol.fmtVec (stop ++ [o.step, (o.maxIters : Rat)] ++ et)
 
 /-! ### protocol -/
 
@@ -489,13 +589,21 @@ def handle (o : Op) : Option String :=
         | "direct" => pure Route.direct
         | "unpack" => pure Route.unpackCfg
         | "get_func" => pure Route.getFunc
+        | "get_func+args" => pure Route.getFunc      -- handled below (`emitFuncArgs`)
         | _ => return "bad-op"
       if second = 2 ∧ vn ≠ "mask_sift" then return "bad-op"
       let v := if second = 2 then Variant.maskSecond else if second != 0 then Variant.second v0 else v0
-      match emit (legacy != 0) r v { top, imf, env, ext } with
+      let res := if rt = "get_func+args" then
+          (if second = 1 then emitFuncArgs (legacy != 0) v0 { top, imf, env, ext } else .error .typeError)
+        else emit (legacy != 0) r v { top, imf, env, ext }
+      match res with
       | .error e => return s!"err {e.name}"
       | .ok cs =>
         let eff := cs.map effective
+        if (o.nat? "rules").getD 0 != 0 then
+          -- the rule every `get_next_imf` call of the run evaluates (distinct values, in order of first occurrence)
+          let rs := ((cs.filter (·.stage = .gni)).map fun c => fmtImfOpts (imfOptsOf c.args)).eraseDups
+          return s!"ok n={rs.length} | " ++ " | ".intercalate rs
         return s!"ok gni={fmtTree (stageRecords .gni cs)} ie={fmtTree (stageRecords .ie cs)} gpe={fmtTree (stageRecords .gpe cs)} egni={fmtTree (stageRecords .gni eff)} eie={fmtTree (stageRecords .ie eff)} egpe={fmtTree (stageRecords .gpe eff)}"
   | "OPTSIGS" => some s!"ok sigs={fmtTree allSigs} lits={fmtTree (.seq .list (TreeList.ofList [siftImfLiteral, ieExtremaLiteral, gpeLocLiteral, gpeMagLiteral]))}"
   | _ => none
